@@ -265,7 +265,6 @@ def tasks(tier, seed=0):
         ts.append(("roundtrip_task", dict(kind="logistic", kw=dict(features=["f 1", "f_2", "3"], source_dimension=2), instance_name="logistic")))
     else:
         ts.append(("roundtrip_task", dict(kind="logistic", kw=dict(features=["a", "b", "c", "d"], source_dimension=2), instance_name="logistic")))
-        ts.append(("roundtrip_task", dict(kind="joint", kw=dict(features=["a", "b", "c"], source_dimension=2, nb_events=2), instance_name="joint")))
     return ts
 
 
